@@ -54,11 +54,11 @@ def loop_doms(ev: Event) -> List[Term]:
 
 
 def residual(ev: Event, context: Sequence[Term]) -> List[Conj]:
-    """path-condition conjuncts that are neither raise-survivors nor implied by the declared context."""
+    """path-condition conjuncts that are neither raise-survivors, loop conditions nor implied by the declared context."""
     out = []
     for c in ev.pc:
-        if c.prov == "raise-surv":
-            continue
+        if c.prov in ("raise-surv", "loopcond"):
+            continue        # (a while loop's own condition is loop context, like a for loop's domain)
         if any(implies(x, c.term) for x in context):
             continue
         out.append(c)
@@ -226,6 +226,64 @@ def single_return(summ: Summary) -> Term:
     return rets[0].term
 
 
+def as_lambda(walker: Any, t: Term, depth: int = 0) -> Optional[Term]:
+    """a term that denotes a callable, as ('lam', n, body): lambdas, references to simple repository functions (one value, parameters
+    and enclosing-scope names only), functools.partial applications of those. None when it is not understood."""
+    from .terms import substitute
+    if depth > 4:
+        return None
+    if t[0] == "lam":
+        return t
+    if t[0] == "g" and t[1] in walker.repo.functions:
+        fi = walker.repo.functions[t[1]]
+        if fi.is_classmethod or (fi.cls is not None and not fi.is_staticmethod):
+            return None
+        try:
+            summ = walker.summary(t[1], 0)
+        except Exception:
+            return None
+        if summ.unknown or summ.falls or any(e.kind in ("store", "del", "raise", "assert") for e in summ.events):
+            return None
+        v = function_value(summ)
+        if v is None:
+            return None
+        a = fi.node.args   # type: ignore
+        if a.vararg or a.kwarg or a.kwonlyargs:
+            return None
+        params = [p_.arg for p_ in a.posonlyargs + a.args]
+        return ("lam", len(params), substitute(v, {("v", p_): ("v", "λ%d" % i) for i, p_ in enumerate(params)}))
+    if t[0] == "call" and t[1] in (("g", "ext:functools.partial"), ("g", "ext:partial")) and t[2] and not t[3]:
+        inner = as_lambda(walker, t[2][0], depth + 1)
+        bound = t[2][1:]
+        if inner is None or len(bound) > inner[1]:
+            return None
+        m: Dict[Term, Term] = {}
+        for i in range(inner[1]):
+            m[("v", "λ%d" % i)] = bound[i] if i < len(bound) else ("v", "λ%d" % (i - len(bound)))
+        return ("lam", inner[1] - len(bound), substitute(inner[2], m))
+    return None
+
+
+def canon_callables(walker: Any, t: Any) -> Any:
+    """rewrite every callable passed as an argument (function reference, partial application) into its lambda form"""
+    if not isinstance(t, tuple) or not t:
+        return t
+    if t[0] == "call" and len(t) == 4:
+        f = canon_callables(walker, t[1])
+        args = []
+        for a in t[2]:
+            a2 = canon_callables(walker, a)
+            if isinstance(a2, tuple) and a2 and (a2[0] == "g" and a2[1] in walker.repo.functions or
+                                                 (a2[0] == "call" and a2[1] in (("g", "ext:functools.partial"), ("g", "ext:partial")))):
+                lam = as_lambda(walker, a2)
+                if lam is not None:
+                    a2 = lam
+            args.append(a2)
+        kw = tuple((k_, canon_callables(walker, v)) if isinstance(k_, str) else (k_, v) for k_, v in t[3]) if isinstance(t[3], tuple) else t[3]
+        return ("call", f, tuple(args), kw)
+    return tuple(canon_callables(walker, x) for x in t)
+
+
 def require_return(ck: Check, rule: str, summ: Summary, spec: Spec, expected: str, what: str) -> bool:
     """Formula obligation: the function's (single, unconditional) return value normalises to `expected`."""
     fi = summ.fi
@@ -235,6 +293,12 @@ def require_return(ck: Check, rule: str, summ: Summary, spec: Spec, expected: st
     uncond = [r for r in rets if not residual(r, ())]
     from .terms import untag as _untag
     if (len(rets) == 1 and uncond and _untag(rets[0].term) == want) or (rets and same_function(summ, want)):
+        ck.ok(rule, construct, what, rets[0].loc)
+        return True
+    # callables handed on as arguments (a nested function, a module-level function bound with functools.partial, a lambda) compare
+    # by what they compute
+    fv = function_value(summ)
+    if rets and fv is not None and same_value(canon_callables(ck.walker, fv), canon_callables(ck.walker, want)):
         ck.ok(rule, construct, what, rets[0].loc)
         return True
     if summ.unknown:
